@@ -90,11 +90,14 @@ func (m *machine) durMs(v value) *term {
 	case *sym:
 		t := d.t
 		if t.op == "bvmul" && len(t.args) == 2 {
-			if t.args[0].isConst() && int64(t.args[0].c) == 1e6 {
-				return t.args[1]
-			}
-			if t.args[1].isConst() && int64(t.args[1].c) == 1e6 {
-				return t.args[0]
+			for i := 0; i < 2; i++ {
+				if c := t.args[i]; c.isConst() && int64(c.c) > 0 && int64(c.c)%1e6 == 0 {
+					if int64(c.c) == 1e6 {
+						return t.args[1-i]
+					}
+					// whole seconds, minutes, ...: x * (c / 1e6) milliseconds
+					return m.tf.bin("bvmul", t.args[1-i], m.tf.bv(uint64(int64(c.c)/1e6), 64))
+				}
 			}
 		}
 		panic(unsupported("symbolic duration that is not of the form x * time.Millisecond"))
